@@ -66,6 +66,7 @@ type levelDest struct {
 	over   bool
 	failAt int // 1-based index of the WriteLevel call that returns an error (0 = never)
 	calls  int
+	onRecv func() // called while a line is being received (a destination that itself logs through another writer)
 }
 
 func (d *levelDest) Write(p []byte) (int, error) {
@@ -82,6 +83,9 @@ func (d *levelDest) WriteLevel(l zerolog.Level, p []byte) (int, error) {
 		mcrt.Point("dest.enter")
 	}
 	d.got = append(d.got, rec{l, true, s})
+	if d.onRecv != nil {
+		d.onRecv()
+	}
 	if d.yield {
 		mcrt.Point("dest.exit")
 	}
@@ -359,7 +363,7 @@ func runHistory(r *seq.Run, cl, tl zerolog.Level, plain bool, hist []op) {
 	var gots [3][]rec
 	var wants [3][]rec
 	heldAny := false
-	mcrt.Run(mcrt.Config{}, func() {
+	res := mcrt.Run(mcrt.Config{}, func() {
 		type instance struct {
 			w  *zerolog.TriggerLevelWriter
 			ld *levelDest
@@ -410,10 +414,18 @@ func runHistory(r *seq.Run, cl, tl zerolog.Level, plain bool, hist []op) {
 			wants[id] = in.m.out
 		}
 		a := mk()
+		// instance 0's destination holds a line in ANOTHER TriggerLevelWriter every time it receives one (a
+		// destination that logs): a buffer instance 0 gave back too early would be handed to that writer and
+		// overwritten while instance 0 is still delivering from it
+		side := &zerolog.TriggerLevelWriter{Writer: &levelDest{}, ConditionalLevel: zerolog.ErrorLevel, TriggerLevel: zerolog.PanicLevel}
+		if a.ld != nil {
+			a.ld.onRecv = func() { side.WriteLevel(zerolog.DebugLevel, []byte("side line held while instance 0 delivers\n")) }
+		}
 		for i, o := range hist {
 			step(a, 0, i, o)
 		}
 		a.w.Close()
+		side.Close()
 		collect(a, 0)
 		b, c := mk(), mk()
 		for i, o := range hist {
@@ -426,6 +438,12 @@ func runHistory(r *seq.Run, cl, tl zerolog.Level, plain bool, hist []op) {
 		collect(c, 2)
 	})
 	r.Transitions += int64(3 * len(hist))
+	if len(res.Panics) > 0 || res.Deadlock {
+		r.Eval(fmt.Sprint(cl, tl, plain, hist, "panic"), true)
+		r.Violation("", fmt.Sprint("seq-panic/", cl, tl, plain), fmt.Sprintf("ConditionalLevel=%d TriggerLevel=%d plainDest=%v history %v: the writer panicked or blocked (deadlock=%v): %s", cl, tl, plain, hist, res.Deadlock, firstLineOf(res.Panics)),
+			map[string]interface{}{"cond": cl, "trig": tl, "plain": plain, "history": fmt.Sprint(hist)})
+		return
+	}
 	r.Eval(fmt.Sprint(cl, tl, plain, hist, fmtRecs(gots[0])), heldAny)
 	for inst := 0; inst < 3; inst++ {
 		if !sameRecs(gots[inst], wants[inst], !plain) {
@@ -438,10 +456,20 @@ func runHistory(r *seq.Run, cl, tl zerolog.Level, plain bool, hist []op) {
 	}
 }
 
+func firstLineOf(ps []string) string {
+	if len(ps) == 0 {
+		return ""
+	}
+	if i := strings.IndexByte(ps[0], '\n'); i >= 0 {
+		return ps[0][:i]
+	}
+	return ps[0]
+}
+
 func runFaultHistory(r *seq.Run, cl, tl zerolog.Level, failAt int, hist []op) {
 	ld := &levelDest{failAt: failAt}
 	var written []string
-	mcrt.Run(mcrt.Config{}, func() {
+	res := mcrt.Run(mcrt.Config{}, func() {
 		w := &zerolog.TriggerLevelWriter{Writer: ld, ConditionalLevel: cl, TriggerLevel: tl}
 		for i, o := range hist {
 			switch o.kind {
@@ -462,6 +490,10 @@ func runFaultHistory(r *seq.Run, cl, tl zerolog.Level, failAt int, hist []op) {
 		w.Close()
 	})
 	r.Transitions += int64(len(hist))
+	if len(res.Panics) > 0 || res.Deadlock {
+		r.Violation("", "fault/panic", fmt.Sprintf("cond=%d trig=%d, destination call %d fails, history %v: the writer panicked or blocked (deadlock=%v): %s", cl, tl, failAt, hist, res.Deadlock, firstLineOf(res.Panics)), fmt.Sprint(hist))
+		return
+	}
 	r.Eval(fmt.Sprint("fault", cl, tl, failAt, hist, fmtRecs(ld.got)), ld.calls >= failAt)
 	pos := map[string]int{}
 	for i, l := range written {
